@@ -13,7 +13,9 @@ RULE = ('a 10-digit base-b two\'s-complement odometer is the model. Binary: ever
         'alphabet plus one illegal character, the length 9/10/11 boundary strings, lower case, and whitespace / sign / '
         'underscore decorations -> model value or #NUM!/#VALUE!, never an exception; all six direct base-to-base '
         'functions equal the composition through decimal, with and without places. distinct_nontrivial = inputs that '
-        'are negative, at a range end, padded, over-long or illegal.')
+        'are negative, at a range end, padded, over-long or illegal.  Off the grid: 20 places values outside 1..10 / fractional / '
+        'text / blank / error / boolean, fractional numbers at the range ends, X2DEC of fractional, negative and over-long numbers: '
+        'an error value or the digits of an adjacent integer padded to at most 10 digits, never an exception.')
 ASSUMPTIONS = ['for negative n with explicit places only "10 digits or #NUM!" is required (the statement does not say which)',
                'the empty string is not judged']
 GROUP = ('fn', 'verdict')
@@ -210,6 +212,87 @@ def work_strings(job):
     return acc.result()
 
 
+ERRS = ('#NUM!', '#VALUE!', '#N/A', '#DIV/0!', '#REF!', '#NAME?', '#NULL!')
+ODD_PLACES = [0, -1, 11, 12, 100, 10 ** 6, 2.9, 10.5, 0.5, '4', '10', '11', 'abc', '', ' ', '#N/A', '#DIV/0!', None, True, False]
+
+
+def work_oddargs(job):
+    """arguments off the main grid: places outside 1..10 (zero, negative, > 10, fractional, numeric text, text, blank,
+    error values, booleans), fractional and text numbers.  Nothing raises; the result is an error value or the
+    odometer string of an adjacent integer, padded to at most 10 digits."""
+    b, = job
+    name = BASES[b][0]
+    h = HALF[b]
+    acc = Acc()
+    ev = feval.Evaluator()
+    ns = [0, 1, 5, b - 1, b, h - 1, -1, -h]
+    for n in ns:
+        exp = model_dec2x(n, b)
+        for pl in ODD_PLACES:
+            env = {'A1': n, 'C1': pl}
+            forms = [(f'=DEC2{name}(A1,C1)', n)]
+            if n >= 0:
+                env['B1'] = to_base(n, 2)
+                if len(env['B1']) <= 10 and b != 2:
+                    forms.append((f'=BIN2{name}(B1,C1)', n))
+            for f, nn in forms:
+                o = ev.run(f, env)
+                acc.add('evaluations')
+                acc.add('states')
+                acc.add('distinct_nontrivial')
+                case = dict(kind='odd', fn=f.split('(')[0][1:], n=n, places=jsonable(pl), ptype=type(pl).__name__)
+                if o[0] != 'ok':
+                    acc.violation(dict(case, verdict='raised', exc=o[1]), f'{f} with n={n} places={pl!r} raised {o[1]}: {o[2][-80:]}')
+                    continue
+                r = o[1]
+                if isinstance(pl, str) and pl in ERRS:
+                    ok = r in ERRS
+                elif isinstance(pl, str):
+                    try:
+                        pv = int(pl)
+                    except ValueError:
+                        ok = r in ERRS
+                    else:
+                        ok = r in ERRS or (len(exp) <= pv <= 10 and r == exp.zfill(pv))
+                elif pl is None or isinstance(pl, bool):
+                    ok = r in ERRS or (isinstance(r, str) and len(r) <= 10 and r.lstrip('0') == exp.lstrip('0'))
+                else:
+                    pv = int(pl)
+                    if n < 0:
+                        ok = r == '#NUM!' or (1 <= pv <= 10 and r == exp)
+                    else:
+                        ok = r == (exp.zfill(pv) if len(exp) <= pv <= 10 else '#NUM!')
+                if not ok:
+                    acc.violation(dict(case, verdict='wrong-places-handling', observed=jsonable(r)),
+                                  f'{f} with n={n} places={pl!r} = {r!r}; expected an error value or {exp!r} padded to at most 10 digits')
+    # fractional numbers: the digits of an adjacent integer (or #NUM! past the range), never an exception
+    for n in [0, 1, 2, 5, h - 2, h - 1, -1, -2, -h + 1, -h, h, -h - 1]:
+        for fr in (0.25, 0.5, 0.75):
+            x = n + fr
+            o = ev.run(f'=DEC2{name}(A1)', {'A1': x})
+            acc.add('evaluations')
+            acc.add('states')
+            case = dict(kind='odd', fn=f'DEC2{name}', x=x)
+            if o[0] != 'ok':
+                acc.violation(dict(case, verdict='raised', exc=o[1]), f'=DEC2{name}({x}) raised {o[1]}')
+            elif o[1] not in (model_dec2x(n, b), model_dec2x(n + 1, b)):
+                acc.violation(dict(case, verdict='wrong-digits', observed=jsonable(o[1])),
+                              f'=DEC2{name}({x}) = {o[1]!r}: neither the digits of {n} nor of {n + 1}')
+    # X2DEC of numbers that are not digit strings: fractional, negative, too long
+    for x in [1.5, 10.5, -1, -10, -1.5, 1e10, 1e11, 11111111111, 1e300, -1e300, 0.1]:
+        o = ev.run(f'={name}2DEC(A1)', {'A1': x})
+        acc.add('evaluations')
+        acc.add('states')
+        case = dict(kind='odd', fn=f'{name}2DEC', x=x)
+        if o[0] != 'ok':
+            acc.violation(dict(case, verdict='raised', exc=o[1]), f'={name}2DEC({x}) raised {o[1]}')
+        elif o[1] not in ERRS:
+            acc.violation(dict(case, verdict='accepted-illegal', observed=jsonable(o[1])),
+                          f'={name}2DEC({x!r}) = {o[1]!r}; the number is not a string of at most 10 base-{b} digits')
+    acc.counts['transitions'] = acc.counts.get('evaluations', 0)
+    return acc.result()
+
+
 def run(ctx):
     jobs = []
     for b in BASES:
@@ -220,6 +303,7 @@ def run(ctx):
     for b in BASES:
         jobs += [(b, k, 8, 5 if ctx.thorough else 4) for k in range(8)]
     ctx.pmap(work_strings, jobs, timeout=6000)
+    ctx.pmap(work_oddargs, [(b,) for b in BASES], timeout=600)
     ctx.sample(dict(n=-1, DEC2HEX='FFFFFFFFFF', HEX2DEC_back=-1))
     ctx.sample(dict(s='1000000000', BIN2DEC=-512))
     ctx.sample(dict(n=5, places=3, DEC2BIN='101', note='places 3 exactly fits'))
@@ -236,6 +320,13 @@ def replay(case):
             o = ev.run(f"={case['fn']}(A1)", {'A1': case['s']})
             return True, f"={case['fn']}({case['s']!r}) -> {o[:2]!r}"
         return bool(hits), '\n'.join(hits[:2]) or 'no violation'
+    if case['kind'] == 'odd':
+        for b in BASES:
+            r = work_oddargs((b,))
+            hits = [m for c, m in r['violations'] if all(c.get(k) == case.get(k) for k in ('fn', 'n', 'places', 'x', 'ptype'))]
+            if hits:
+                return True, hits[0]
+        return False, 'no violation'
     name = case['fn'].replace('DEC2', '').replace('2DEC', '')[:3]
     b = {'BIN': 2, 'OCT': 8, 'HEX': 16}.get(name, 2)
     env = {'A1': case['n'], 'C1': case.get('places')}
